@@ -91,18 +91,26 @@ func c18Kinds[V any](vs *ValSpec[V], tier string) []UniverseDef {
 	var out []UniverseDef
 	P := func(n int) string { return rep('p', n) }
 	tag := "/V=" + vs.Name
+	keyOnly := vs.Name == "int" || vs.Name == "string"
 	alpha := AlphaSpec{Name: "GC5", Free: []string{"a", "ab", P(12) + "x", P(12) + "y", P(11) + "z"}, Probes: []string{P(12)}, NoAutoP: true, Prefixes: []string{"a", P(12)}}
 	fan := FanUniverse(FanSpec{Name: "GCFAN48@14", Hold: 14, Extra: 3, Present: 2, Absent: 2})
 	fan.NoAutoP = true
 	// compressed paths far longer than a node (pointer arithmetic on the inline path must stay inside it)
 	vlong := AlphaSpec{Name: "GCVERYLONG", Setup: []string{P(300) + "m1", P(300) + "m2", P(300) + "m3", P(300) + "m4", P(300) + "m5"},
 		Free: []string{P(100) + "a", P(100) + "b", P(100) + "c", P(300) + "x"}, Probes: []string{P(100)}, NoAutoP: true, Prefixes: []string{P(100), P(300)}}
+	// keys whose stored form exactly fills an allocation size class (24, 32, 48 bytes) behind a long shared path:
+	// a read a few bytes past the end of a key leaves its allocation
+	exact := AlphaSpec{Name: "GCEXACTFIT", Free: []string{P(22) + "a", P(22) + "b", P(30) + "c", P(46) + "d", P(14) + "e"}, Probes: []string{P(12), P(22)}, NoAutoP: true,
+		Prefixes: []string{P(11), P(12), P(22), P(23)}}
 	for _, kt := range []string{"string", "[]byte"} {
 		kt := kt
-		for _, sp := range []AlphaSpec{alpha, fan, vlong} {
+		for _, sp := range []AlphaSpec{alpha, fan, vlong, exact} {
 			sp := sp
 			if kt == "[]byte" && sp.Name != "GC5" {
 				continue
+			}
+			if sp.Name == "GCEXACTFIT" && !keyOnly {
+				continue // about key storage, not values
 			}
 			out = append(out, UniverseDef{Name: "alpha[" + kt + "]/" + sp.Name + tag, Build: func() *Universe {
 				u := NewAlphaUniverseD(sp, kt,
@@ -156,6 +164,18 @@ func c18Kinds[V any](vs *ValSpec[V], tier string) []UniverseDef {
 	}})
 	long := Schema{Fields: []FieldType{FU64, FU64}, Str: true}
 	mk := func(a, b uint64, s string) Tuple { return Tuple{N: []Num{{T: FU64, U: a}, {T: FU64, U: b}}, S: s} }
+	tri := Schema{Fields: []FieldType{FU64, FU64, FU64}}
+	mk3 := func(a, b, c uint64) Tuple { return Tuple{N: []Num{{T: FU64, U: a}, {T: FU64, U: b}, {T: FU64, U: c}}} }
+	if keyOnly {
+		out = append(out, UniverseDef{Name: "compound[u64,u64,u64]/GC24" + tag, Build: func() *Universe {
+			u := NewCompoundUniverseD("GC24", tri, []Tuple{mk3(1, 2, 0x0101), mk3(1, 2, 0x0102), mk3(1, 2, 0x0201), mk3(1, 3, 0), mk3(2, 0, 0)}, []Tuple{mk3(1, 2, 0x0103)}, 1,
+				func(codec SchemaCodec, spec *KeySpec[Tuple], index map[string]int) Driver {
+					return NewDriverV[Tuple, V](art.NewCompoundTree[Tuple, V](codec), spec, index, vs)
+				})
+			u.Name += tag
+			return u
+		}})
+	}
 	out = append(out, UniverseDef{Name: "compound[u64,u64,str]/GC5" + tag, Build: func() *Universe {
 		u := NewCompoundUniverseD("GC5", long, []Tuple{mk(7, 0x0101010101010100, "x"), mk(7, 0x0101010101010101, "x"), mk(8, 0, ""), mk(7, 0x0101010101010100, ""), mk(7, 0x0101010101020100, "q")}, []Tuple{mk(6, 0, "")}, 1,
 			func(codec SchemaCodec, spec *KeySpec[Tuple], index map[string]int) Driver {
